@@ -1,22 +1,35 @@
 #!/usr/bin/env python3
 """Translator for C20: extract the dtype -> conversion-rule tables of BOTH load paths into
-lean/RtenVerif/Generated/ConverterConsts.lean:
+lean/RtenVerif/Generated/ConverterConsts.lean.
 
- * converter: the `match dtype_name:` of `constant_node_from_onnx_initializer`
-   (rten-convert/rten_convert/converter.py, Python `ast`): each case's numpy dtype names and what
-   its body does to `data` (`pass`, `data.astype(np.X)`, `data.clip(i32.min, i32.max).astype(np.X)`);
- * ONNX loader: the `match initializer.data_type` of `load_constant` (src/model/onnx_loader.rs):
-   each `Some(onnx::DataType::X) =>` arm, classified by the conversion expressions it contains,
-   plus the body of `saturating_cast_i64_to_i32`.
+ * converter: `constant_node_from_onnx_initializer` (rten-convert/rten_convert/converter.py,
+   Python `ast`).  The statements around the `match dtype_name:` and the COMPLETE body of every
+   case are compared (after `ast.unparse`) with the exact text this translator gives meaning to;
+   a case guard, an augmented assignment, an extra statement ... make the case `.unrecognised`.
+ * ONNX loader: `load_constant` (src/model/onnx_loader.rs).  The body of
+   `match initializer.data_type` is cut into arms at every top-level `=>`; every arm pattern must be
+   `Some(onnx::DataType::X)`, `Some(dtype)` or `None`, and the whitespace-normalised text of every
+   arm is compared with the exact expected text.  The helper functions the arms call
+   (`make_constant`, `convert_constant`, `convert_f16_constant`, `elements_from_le_bytes`,
+   `saturating_cast_i64_to_i32`) are pinned the same way.
 
-Anything not recognised becomes `.unrecognised`, which makes `c20_const_rules_agree` fail.
-Python stdlib only."""
+Structural surprises (an arm pattern of another shape, a number of `DataType::` occurrences that
+differs from the number of extracted arms, a missing function) are fatal: exit 1.  Text that is
+not recognised is written as `.unrecognised` / `false` (so that `c20_const_rules_agree` fails and
+the generated file shows where) and the translator ALSO exits 1.  Python stdlib only."""
 import argparse, ast, os, re, sys
 
 ap = argparse.ArgumentParser()
 ap.add_argument("--repo", default="/repo")
 ap.add_argument("--verif", default=os.path.dirname(os.path.dirname(os.path.abspath(__file__))))
 a = ap.parse_args()
+problems = []
+
+
+def die(msg):
+    print("converter_consts.py: " + msg, file=sys.stderr)
+    sys.exit(1)
+
 
 NP2ONNX = {"float32": "FLOAT", "float64": "DOUBLE", "float16": "FLOAT16", "bool": "BOOL", "int8": "INT8",
            "uint8": "UINT8", "int16": "INT16", "uint16": "UINT16", "int32": "INT32", "int64": "INT64",
@@ -27,10 +40,37 @@ src = open(os.path.join(a.repo, "rten-convert", "rten_convert", "converter.py"))
 tree = ast.parse(src)
 fn = next((n for n in ast.walk(tree) if isinstance(n, ast.FunctionDef) and n.name == "constant_node_from_onnx_initializer"), None)
 if fn is None:
-    sys.exit("constant_node_from_onnx_initializer not found")
-m = next((n for n in ast.walk(fn) if isinstance(n, ast.Match) and ast.unparse(n.subject) == "dtype_name"), None)
-if m is None:
-    sys.exit("match dtype_name not found")
+    die("constant_node_from_onnx_initializer not found")
+matches = [n for n in fn.body if isinstance(n, ast.Match)]
+if len(matches) != 1 or ast.unparse(matches[0].subject) != "dtype_name":
+    die("expected exactly one top-level `match dtype_name:` in constant_node_from_onnx_initializer")
+m = matches[0]
+frame = "\n".join(ast.unparse(s) for s in fn.body if not isinstance(s, ast.Match))
+FRAME = ("dims = list(tensor.dims)\ndata = numpy_helper.to_array(tensor)\ndtype_name = data.dtype.name\n"
+         "return ConstantNode(name=tensor.name, shape=dims, data=data)")
+frame_ok = frame == FRAME and fn.body.index(m) == 3
+if not frame_ok:
+    problems.append("converter: statements around the match changed: %r" % frame)
+
+WARN16 = ("warn_once(f'Converting {dtype_name} weights to float32 because {dtype_name} is not supported natively yet."
+          " This will increase model size.')\n")
+WARN64 = "warn_once(f'Converting {dtype_name} weights to float32 because {dtype_name} is not supported natively yet.')\n"
+INT64_PRE = ("i32 = np.iinfo(np.int32)\ni64 = np.iinfo(np.int64)\n"
+             "out_of_range_mask = np.logical_or(data > i32.max, data < i32.min)\n"
+             "for val in data[out_of_range_mask]:\n    neg_inf_threshold = -i64.max\n    pos_inf_threshold = i64.max\n"
+             "    if val <= neg_inf_threshold or val >= pos_inf_threshold:\n        continue\n"
+             "    warn_once(f'Clamping out-of-range tensor value {val} to [{i32.min}, {i32.max}]')\n")
+# (numpy dtype, exact case body) -> rule
+CONV_RULES = {
+    ("float32", "pass"): "keepF32", ("int32", "pass"): "keepI32", ("int8", "pass"): "keepI8", ("uint8", "pass"): "keepU8",
+    ("bool", "data = data.astype(np.int32)"): "boolToI32", ("int16", "data = data.astype(np.int32)"): "widenI16",
+    ("float16", WARN16 + "data = data.astype(np.float32)"): "f16ToF32",
+    ("float64", WARN64 + "data = data.astype(np.float32)"): "f64ToF32",
+    ("int64", INT64_PRE + "data = data.clip(i32.min, i32.max).astype(np.int32)"): "satI64",
+    ("int64", INT64_PRE + "data = data.astype(np.int32)"): "wrapI64",
+    ("int64", "data = data.astype(np.int32)"): "wrapI64",
+}
+WILDCARD_BODY = "raise ConversionError(f'Unsupported tensor data type {data.dtype.name} for operator {op_name}')"
 
 
 def names(pat):
@@ -47,126 +87,211 @@ def names(pat):
     return None
 
 
-def action(body):
-    """What the case body does to `data`: the source of the last assignment to `data`, `pass`,
-    or `raise`."""
+def last_data_assignment(body):
     act = "pass"
     for st in body:
         for n in ast.walk(st):
-            if isinstance(n, ast.Assign) and len(n.targets) == 1 and isinstance(n.targets[0], ast.Name) and n.targets[0].id == "data":
+            if isinstance(n, ast.Assign) and any(isinstance(t, ast.Name) and t.id == "data" for t in n.targets):
                 act = ast.unparse(n.value)
-            if isinstance(n, ast.Raise):
-                return "raise"
+            if isinstance(n, (ast.AugAssign, ast.AnnAssign)) and isinstance(n.target, ast.Name) and n.target.id == "data":
+                act = ast.unparse(n)
     return act
 
 
-def conv_rule(np_name, act):
-    table = {
-        ("float32", "pass"): "keepF32", ("int32", "pass"): "keepI32", ("int8", "pass"): "keepI8", ("uint8", "pass"): "keepU8",
-        ("bool", "data.astype(np.int32)"): "boolToI32", ("int16", "data.astype(np.int32)"): "widenI16",
-        ("float16", "data.astype(np.float32)"): "f16ToF32", ("float64", "data.astype(np.float32)"): "f64ToF32",
-        ("int64", "data.clip(i32.min, i32.max).astype(np.int32)"): "satI64",
-        ("int64", "data.astype(np.int32)"): "wrapI64",
-    }
-    if act == "raise":
-        return "unsupported"
-    return table.get((np_name, act), "unrecognised")
-
-
-conv = []
+conv, wildcards = [], 0
 for case in m.cases:
+    body = "\n".join(ast.unparse(s) for s in case.body)
+    is_wild = isinstance(case.pattern, ast.MatchAs) and case.pattern.pattern is None and case.pattern.name is None
+    if is_wild:
+        wildcards += 1
+        if case.guard is not None or body != WILDCARD_BODY or case is not m.cases[-1]:
+            problems.append("converter: wildcard case is not the final unconditional `raise ConversionError`: %r" % body)
+            frame_ok = False
+        continue
     ns = names(case.pattern)
     if ns is None:
-        continue  # wildcard
-    act = action(case.body)
+        die("converter: case pattern %r is neither string literals nor `_`" % ast.unparse(case.pattern))
     for n in ns:
-        conv.append((NP2ONNX.get(n, n.upper()), conv_rule(n, act), act))
+        rule = CONV_RULES.get((n, body), "unrecognised")
+        if case.guard is not None:
+            rule = "unrecognised"
+            problems.append("converter: case %r has a guard `if %s`" % (n, ast.unparse(case.guard)))
+        if rule == "unrecognised":
+            problems.append("converter: body of case %r not recognised: %r" % (n, body))
+        conv.append((NP2ONNX.get(n, n.upper()), rule, last_data_assignment(case.body)))
+if wildcards != 1:
+    problems.append("converter: expected exactly one wildcard case, found %d" % wildcards)
+    frame_ok = False
+if len({d for d, _, _ in conv}) != len(conv):
+    die("converter: a dtype occurs in two cases")
 
 # ---------------------------------------------------------------- onnx_loader.rs
 rs = open(os.path.join(a.repo, "src", "model", "onnx_loader.rs")).read()
-i = rs.find("fn load_constant(")
-j = rs.find("match initializer.data_type", i)
-if i < 0 or j < 0:
-    sys.exit("load_constant / match initializer.data_type not found")
-# the match body
-k = rs.index("{", j)
-depth, e = 0, k
-while True:
-    c = rs[e]
-    if c == "{":
-        depth += 1
-    elif c == "}":
-        depth -= 1
-        if depth == 0:
-            break
-    e += 1
-body = rs[k + 1:e]
-arms = re.split(r"\n\s*(?=Some\(onnx::DataType::[A-Z0-9_]+\) =>)", body)
 norm = lambda s: re.sub(r"\s+", " ", re.sub(r"//[^\n]*", "", s)).strip()
 
 
-def loader_rule(dt, text):
-    t = norm(text)
-    if dt in ("FLOAT", "INT32") and "make_constant(" in t and t.count("|x| x,") + t.count("|x| x )") + t.count("|x| x)") >= 1 and " as " not in t:
-        return {"FLOAT": "keepF32", "INT32": "keepI32"}[dt]
-    if dt == "UINT8" and "make_constant(" in t and "|x| x as u8" in t:
-        return "keepU8"
-    if dt == "INT8" and "make_constant(" in t and "|x| x as i8" in t:
-        return "keepI8"
-    if dt == "INT64" and "convert_constant(" in t:
-        typed_sat = re.search(r"&initializer\.int64_data, saturating_cast_i64_to_i32,", t) is not None
-        bytes_sat = "|bytes: [u8; 8]| saturating_cast_i64_to_i32(i64::from_le_bytes(bytes))" in t
-        if typed_sat and bytes_sat:
-            return "satI64"
-        if "as i32" in t:
-            return "wrapI64"
-        return "unrecognised"
-    if dt == "BOOL" and "convert_constant(" in t:
-        if "|bytes: [u8; 1]| if bytes[0] != 0 { 1 } else { 0 }" in t and "|x| if x != 0 { 1 } else { 0 }" in t:
-            return "boolToI32"
-        return "unrecognised"
-    if dt == "DOUBLE" and "convert_constant(" in t:
-        if "|bytes: [u8; 8]| f64::from_le_bytes(bytes) as f32" in t and "|x| x as f32" in t:
-            return "f64ToF32"
-        return "unrecognised"
-    if dt == "FLOAT16" and "convert_f16_constant(" in t:
-        return "f16ToF32"
-    return "unrecognised"
+def braces(text, k):
+    """text[k] == '{' -> index of the matching '}'."""
+    depth, e = 0, k
+    while True:
+        c = text[e]
+        if c == "{":
+            depth += 1
+        elif c == "}":
+            depth -= 1
+            if depth == 0:
+                return e
+        e += 1
+        if e >= len(text):
+            die("unbalanced braces")
 
 
-loader = []
-for arm in arms:
-    mm = re.match(r"Some\(onnx::DataType::([A-Z0-9_]+)\) =>", arm.strip())
+def rust_fn(name):
+    """Whitespace-normalised, comment-free text of `fn name ... { ... }`."""
+    hits = [mm.start() for mm in re.finditer(r"\bfn %s\b" % re.escape(name), rs)]
+    if len(hits) != 1:
+        die("loader: expected exactly one `fn %s`, found %d" % (name, len(hits)))
+    i = hits[0]
+    d, p = 0, i
+    while True:
+        ch = rs[p]
+        if ch in "(<[":
+            d += 1
+        elif ch in ")]" or (ch == ">" and rs[p - 1] != "-"):
+            d -= 1
+        elif ch == "{" and d == 0:
+            break
+        p += 1
+        if p >= len(rs):
+            die("loader: body of fn %s not found" % name)
+    return norm(rs[i:braces(rs, p) + 1])
+
+
+i = rs.find("fn load_constant(")
+j = rs.find("match initializer.data_type", i)
+if i < 0 or j < 0 or rs.count("match initializer.data_type") != 1:
+    die("load_constant / a unique `match initializer.data_type` not found")
+k = rs.index("{", j)
+body = re.sub(r"//[^\n]*", "", rs[k + 1:braces(rs, k)])
+# arms = top-level `=>`
+starts, d = [], 0
+for mm in re.finditer(r"[\(\)\[\]\{\}]|=>", body):
+    t = mm.group(0)
+    if t in "([{":
+        d += 1
+    elif t in ")]}":
+        d -= 1
+    elif d == 0:
+        starts.append(mm.start())
+pats = [(body.rfind("\n", 0, s) + 1, s) for s in starts]
+arms = []
+for n, (p0, p1) in enumerate(pats):
+    end = pats[n + 1][0] if n + 1 < len(pats) else len(body)
+    arms.append((norm(body[p0:p1]), norm(body[p1 + 2:end])))
+
+MK = "make_constant( name, &shape, raw_data, external_data, &initializer.%s, %s, )?,"
+ARMS = {
+    "FLOAT": ("keepF32", MK % ("float_data", "|x| x")),
+    "INT32": ("keepI32", MK % ("int32_data", "|x| x")),
+    "UINT8": ("keepU8", MK % ("int32_data", "|x| x as u8")),
+    "INT8": ("keepI8", MK % ("int32_data", "|x| x as i8")),
+    "INT64": ("satI64", "{ let i64_bytes_to_i32 = |bytes: [u8; 8]| saturating_cast_i64_to_i32(i64::from_le_bytes(bytes)); "
+                        "convert_constant( name, &shape, raw_data.as_deref(), external_data, &initializer.int64_data, "
+                        "saturating_cast_i64_to_i32, i64_bytes_to_i32, )? }"),
+    "BOOL": ("boolToI32", "{ let u8_to_i32 = |bytes: [u8; 1]| if bytes[0] != 0 { 1 } else { 0 }; "
+                          "convert_constant( name, &shape, raw_data.as_deref(), external_data, &initializer.int32_data, "
+                          "|x| if x != 0 { 1 } else { 0 }, u8_to_i32, )? }"),
+    "DOUBLE": ("f64ToF32", "{ let f64_bytes_to_f32 = |bytes: [u8; 8]| f64::from_le_bytes(bytes) as f32; "
+                           "convert_constant( name, &shape, raw_data.as_deref(), external_data, &initializer.double_data, "
+                           "|x| x as f32, f64_bytes_to_f32, )? }"),
+    "FLOAT16": ("f16ToF32", "convert_f16_constant( name, &shape, raw_data.as_deref(), external_data, &initializer.int32_data, )?,"),
+}
+FALLBACKS = {
+    "Some(dtype)": '{ return Err(load_error!( GraphError, name, "initializer has unsupported data type {}", dtype )); }',
+    "None": '{ return Err(load_error!( GraphError, name, "initializer is missing data type" )); }',
+}
+loader, fallbacks_seen = [], []
+for pat, text in arms:
+    mm = re.fullmatch(r"Some\(onnx::DataType::([A-Z0-9_]+)\)", pat)
     if mm:
-        loader.append((mm.group(1), loader_rule(mm.group(1), arm)))
+        dt = mm.group(1)
+        exp = ARMS.get(dt)
+        if exp is not None and exp[1] == text:
+            loader.append((dt, exp[0]))
+        else:
+            loader.append((dt, "unrecognised"))
+            problems.append("loader: arm %s not recognised: %r" % (dt, text))
+    elif pat in FALLBACKS:
+        fallbacks_seen.append(pat)
+        if FALLBACKS[pat] != text:
+            die("loader: fallback arm `%s` is not the expected `return Err(..)`: %r" % (pat, text))
+    else:
+        die("loader: arm pattern %r is none of Some(onnx::DataType::X) / Some(dtype) / None" % pat)
+n_dt = len(re.findall(r"DataType::", body))
+if n_dt != len(loader):
+    die("loader: %d occurrences of `DataType::` in the match body but %d arms extracted" % (n_dt, len(loader)))
+if fallbacks_seen != ["Some(dtype)", "None"]:
+    die("loader: expected the fallback arms Some(dtype), None last; found %r" % fallbacks_seen)
+if len({d for d, _ in loader}) != len(loader):
+    die("loader: a dtype occurs in two arms")
+if [p for p, _ in arms][-2:] != ["Some(dtype)", "None"]:
+    die("loader: fallback arms are not last")
+
+HELPERS = {
+    "saturating_cast_i64_to_i32": "fn saturating_cast_i64_to_i32(x: i64) -> i32 { x.clamp(i32::MIN as i64, i32::MAX as i64) as i32 }",
+    "make_constant": "fn make_constant<T: FromByteArray, U: FromByteArray>( name: Option<&str>, shape: &[usize], raw_data: Option<Vec<u8>>, external_data: Option<DataSlice>, typed_data: &[U], convert: impl Fn(U) -> T, ) -> Result<Constant, LoadError> where Constant: From<ConstantNode<T>>, { let tensor: ConstantNodeData<T> = if let Some(data) = raw_data { tensor_from_bytes::<T>(shape, data, name)?.into() } else if let Some(external_data) = external_data { tensor_from_external_data::<T>(shape, &external_data, name)?.into() } else { let data = typed_data.iter().copied().map(convert).collect(); tensor_from_elements(shape, data, name)?.into() }; Ok(Constant::new(name, tensor)) }",
+    "convert_constant": "fn convert_constant<U: Copy, T, const N: usize>( name: Option<&str>, shape: &[usize], raw_data: Option<&[u8]>, external_data: Option<DataSlice>, typed_data: &[U], convert: impl Fn(U) -> T, convert_bytes: impl Fn([u8; N]) -> T, ) -> Result<Constant, LoadError> where Constant: From<ConstantNode<T>>, { let data = if let Some(data) = raw_data { elements_from_le_bytes(data, convert_bytes) } else if let Some(external_data) = external_data { elements_from_le_bytes(external_data.data(), convert_bytes) } else { typed_data.iter().copied().map(convert).collect() }; let tensor = tensor_from_elements(shape, data, name)?; Ok(Constant::new(name, tensor)) }",
+    "convert_f16_constant": "fn convert_f16_constant( name: Option<&str>, shape: &[usize], raw_data: Option<&[u8]>, external_data: Option<DataSlice>, int32_data: &[i32], ) -> Result<Constant, LoadError> { let ext_bytes = external_data.as_ref().map(|data| data.data()); let f16s: Cow<[f16]> = if let Some(bytes) = raw_data.or(ext_bytes) { let halfs = f16_slice_from_le_bytes(bytes).ok_or_else(|| { load_error!(GraphError, name, \"f16 tensor data is not 2-byte aligned\") })?; Cow::Borrowed(halfs) } else { int32_data .iter() .map(|&x| f16::from_bits(x as u16)) .collect() }; let n = f16s.len(); let mut data: Vec<f32> = Vec::with_capacity(n); data.extend_init(|spare_capacity| F16ToF32::new(&f16s, &mut spare_capacity[..n]).dispatch()); let tensor = tensor_from_elements(shape, data, name)?; Ok(Constant::new(name, tensor)) }",
+    "elements_from_le_bytes": "fn elements_from_le_bytes<T, const ELEM_SIZE: usize>( data: &[u8], convert: impl Fn([u8; ELEM_SIZE]) -> T, ) -> Vec<T> { data.as_chunks::<ELEM_SIZE>() .0 .iter() .copied() .map(convert) .collect() }",
+}
+helpers = []
+for name, exp in HELPERS.items():
+    got = rust_fn(name)
+    ok = got == exp
+    helpers.append((name, ok))
+    if not ok:
+        problems.append("loader: fn %s changed: %r" % (name, got))
 sat = re.search(r"fn saturating_cast_i64_to_i32\(x: i64\) -> i32 \{(.*?)\n\}", rs, re.S)
 sat_body = norm(sat.group(1)) if sat else "<not found>"
 
-esc = lambda s: s.replace("\\", "\\\\").replace('"', '\\"')
+esc = lambda s: s.replace("\\", "\\\\").replace('"', '\\"').replace("\n", "\\n")
 out = '''import RtenVerif.Model.ConstNarrow
 /-! GENERATED by translate/converter_consts.py from rten-convert/rten_convert/converter.py
-(`constant_node_from_onnx_initializer`) and src/model/onnx_loader.rs (`load_constant`,
-`saturating_cast_i64_to_i32`). Do not edit. -/
+(`constant_node_from_onnx_initializer`) and src/model/onnx_loader.rs (`load_constant` and the
+helpers its arms call). Do not edit. -/
 namespace RtenVerif.Generated
 open RtenVerif.ConstNarrow
-/-- ONNX dtype ↦ rule applied by rten-convert to an initializer of that dtype. -/
+/-- ONNX dtype ↦ rule applied by rten-convert to an initializer of that dtype (exact case bodies). -/
 def converterConstRules : List (String × Rule) :=
   [%s]
-/-- The expression each converter case assigns to `data` (documentation of the table above). -/
+/-- The statements around the converter's `match` are the expected ones (`to_array`, then the
+match, then `ConstantNode(...)`) and the only wildcard case is the final `raise`. -/
+def converterFrameRecognised : Bool := %s
+/-- The expression each converter case assigns to `data` last (documentation of the table above). -/
 def converterConstActions : List (String × String) :=
   [%s]
-/-- ONNX dtype ↦ rule applied by the ONNX loader (`load_constant`). -/
+/-- ONNX dtype ↦ rule applied by the ONNX loader (`load_constant`), every arm compared with its exact text. -/
 def loaderConstRules : List (String × Rule) :=
+  [%s]
+/-- Helper functions called by the arms: name ↦ "text is exactly the one the rules were read from". -/
+def loaderHelpersRecognised : List (String × Bool) :=
   [%s]
 /-- Body of `saturating_cast_i64_to_i32`. -/
 def loaderSatCastBody : String := "%s"
 end RtenVerif.Generated
 ''' % (", ".join('("%s", .%s)' % (d, r) for d, r, _ in conv),
+       "true" if frame_ok else "false",
        ", ".join('("%s", "%s")' % (d, esc(act)) for d, _, act in conv),
        ", ".join('("%s", .%s)' % (d, r) for d, r in loader),
+       ", ".join('("%s", %s)' % (n, "true" if ok else "false") for n, ok in helpers),
        esc(sat_body))
 dst = os.path.join(a.verif, "lean", "RtenVerif", "Generated", "ConverterConsts.lean")
 if not os.path.exists(dst) or open(dst).read() != out:
     open(dst, "w").write(out)
-print("converter_consts: converter %s; loader %s; sat body %r" % (
-    " ".join("%s=%s" % (d, r) for d, r, _ in conv), " ".join("%s=%s" % x for x in loader), sat_body))
+print("converter_consts: converter %s; loader %s; helpers %s; sat body %r" % (
+    " ".join("%s=%s" % (d, r) for d, r, _ in conv), " ".join("%s=%s" % x for x in loader),
+    " ".join("%s=%s" % x for x in helpers), sat_body))
+if problems:
+    for p in problems:
+        print("converter_consts.py: NOT RECOGNISED: " + p, file=sys.stderr)
+    sys.exit(1)
